@@ -36,7 +36,7 @@ def _yaml_roundtrip(ax, t):
             continue     # the comment block _write_properties emits (checked on its real text)
         if not z3.is_string_value(c):
             return
-        for line in c.as_string().splitlines():
+        for line in T.zstr(c).splitlines():
             if line.strip() and not line.lstrip().startswith("#"):
                 return
     d, w, ns, al = [last.arg(i) for i in range(4)]
@@ -1080,7 +1080,7 @@ def _line_of(s):
     if z3.is_app(s) and s.decl().kind() == z3.Z3_OP_SEQ_CONCAT:
         ch = s.children()
         last = ch[-1]
-        if z3.is_string_value(last) and last.as_string() == "\n":
+        if z3.is_string_value(last) and T.zstr(last) == "\n":
             rest = ch[:-1]
             return rest[0] if len(rest) == 1 else z3.Concat(*rest)
     return None
@@ -1458,7 +1458,7 @@ def _filter_lines(m, x, c):
         rest = [k for k in cs.children()
                 if not (z3.is_not(k) and _eq_sides(k.arg(0), x) is not None
                         and z3.is_string_value(_eq_sides(k.arg(0), x))
-                        and _eq_sides(k.arg(0), x).as_string() == "")]
+                        and T.zstr(_eq_sides(k.arg(0), x)) == "")]
         if len(rest) == 1:
             cs = rest[0]
         elif not rest:
